@@ -52,7 +52,7 @@ func caseGen() *rapid.Generator[Case] {
 			Class:    opt(t, "class"),
 			Caption:  opt(t, "caption"),
 			TmplName: opt(t, "tmpl"),
-			Gens:     rapid.SliceOfN(rapid.IntRange(0, 2), 1, 3).Draw(t, "gens"),
+			Gens:     rapid.SliceOfN(rapid.SampledFrom([]int{0, 1, 2, 0, 1, 2, 0, 1, 2, 3}), 1, 3).Draw(t, "gens"),
 		}
 	})
 }
